@@ -556,6 +556,19 @@ func (e *Exec) unary(v *ast.UnaryExpr, c *Ctx) Term {
 				}
 			}
 		}
+		// address of a struct-typed field of a heap object (&x.inner): a deterministic, non-nil function of the object, the same
+		// in code and in contracts (the inner struct is not read through this pointer in the code under contract)
+		if sel, ok := unparen(v.X).(*ast.SelectorExpr); ok {
+			base := e.eval(sel.X, c)
+			if base.T.K == KRef && base.T.Name != "" {
+				if path := e.findField(base.T, sel.Sel.Name, 0); len(path) == 1 && path[0].Type.K == KStruct && path[0].Type.G != nil {
+					pt := e.prog.TypeOf(types.NewPointer(path[0].Type.G), nil)
+					fn := "fieldaddr!" + mangle(base.T.Name) + "!" + sel.Sel.Name
+					e.vc.Decl("fun:"+fn, fmt.Sprintf("(declare-fun %s (Int) Int)\n(assert (forall ((o!f Int)) (! (> (%s o!f) 0) :pattern ((%s o!f)))))", fn, fn, fn))
+					return Term{fmt.Sprintf("(%s %s)", fn, base.S), pt}
+				}
+			}
+		}
 		// address of a field or variable: not modelled
 		if !c.spec {
 			t := e.prog.TypeOf(c.fr.info.Types[v].Type, c.fr.subst)
